@@ -1,6 +1,6 @@
 package main
 
-// Engine amt (C15): api.StringToAmount, api.AmountToString, masswallet.AmountToString.
+// Engine amt (C15): api.StringToAmount, cmd/masswalletcli/cmd.stringToAmount, api.AmountToString, masswallet.AmountToString.
 
 import (
 	"fmt"
@@ -11,6 +11,7 @@ import (
 
 	"github.com/massnetorg/mass-core/massutil"
 	"massnet.org/mass-wallet/api"
+	clicmd "massnet.org/mass-wallet/cmd/masswalletcli/cmd"
 	"massnet.org/mass-wallet/masswallet"
 )
 
@@ -26,6 +27,17 @@ func execAmt(a []string) string {
 			return "bad-op"
 		}
 		amt, err := api.StringToAmount(string(b))
+		if err != nil {
+			return "err"
+		}
+		return "ok " + strconv.FormatUint(amt.UintValue(), 10)
+	case len(a) == 2 && a[0] == "cli":
+		// cmd/masswalletcli/cmd.stringToAmount (cmd_binding.go) through the build-tag hook
+		b, ok := unhexTok(a[1])
+		if !ok {
+			return "bad-op"
+		}
+		amt, err := clicmd.VerifStringToAmount(string(b))
 		if err != nil {
 			return "err"
 		}
@@ -65,6 +77,7 @@ func genAmt(g *Gen) {
 		sinceReset++
 	}
 	emitParse := func(class, s string) { tick(); g.Op(class, "parse %s", hexTok([]byte(s))) }
+	emitCli := func(class, s string) { tick(); g.Op(class, "cli %s", hexTok([]byte(s))) }
 	emitFormat := func(class string, m int64) {
 		tick()
 		g.Op(class, "format %d", m)
@@ -87,6 +100,7 @@ func genAmt(g *Gen) {
 			emitParse("unicode-digit", strings.ReplaceAll(tmpl, "%s", d))
 		}
 	}
+	genAmtCli(g, emitCli, func(n int) { every, sinceReset = n, 0 })
 	for _, m := range []int64{0, 1, 9, 10, 99999999, 100000000, 100000001, 150000000, 1000000000, maxAmt - 1, maxAmt, maxAmt + 1,
 		-1, math.MinInt64, math.MaxInt64, 123456789012345, 10000000000000000} {
 		emitFormat("format-boundary", m)
@@ -237,4 +251,117 @@ func genAmt(g *Gen) {
 			emitFormat("format-random", m)
 		}
 	}
+}
+
+// unicode.IsSpace runes (Unicode White_Space) and near misses that are NOT white space for Go
+var amtSpaces = []string{"\t", "\n", "\v", "\f", "\r", " ", "\u0085", "\u00a0", "\u1680", "\u2000", "\u2001", "\u2002", "\u2003",
+	"\u2004", "\u2005", "\u2006", "\u2007", "\u2008", "\u2009", "\u200a", "\u2028", "\u2029", "\u202f", "\u205f", "\u3000"}
+var amtNonSpaces = []string{"\x00", "\x08", "\x0e", "\x1c", "\x1f", "\x7f", "\u0084", "\u0086", "\u009f", "\u00a1", "\u180e", "\u200b", "\u200c",
+	"\u2027", "\u202a", "\u2060", "\u3001", "\ufeff", "\x85", "\xa0", "\xc2", "\xc2\x20", "\xe2\x80", "\x80\x80", "\xe3\x80", "\xe1\x9a",
+	"\xc0\xa0", "\xe0\x80\xa0", "\xc1\x85", "\xe0\x82\x85", "\xf0\x80\x80\xa0", "\xed\xa0\x80", "\xe2\x80\x8b"}
+
+// genAmtCli: the CLI amount reader cmd/masswalletcli/cmd.stringToAmount (op `cli`): TrimSuffix "MASS", then
+// TrimSpace, then StringToAmount.  Directed texts first (seed C15-6: keeping only the first space-separated
+// token let "1 000 MASS", "12 34", "1.5 e3" through with a guessed value), then every white-space rune and
+// near-miss byte sequence on either side of a numeral, then short exhaustive and random compositions.
+func genAmtCli(g *Gen, emit func(class, s string), setEvery func(int)) {
+	r := g.Rng
+	for _, s := range []string{"1 000 MASS", "12 34", "1.5 e3", "2 .5 MASS", "3 -1", "1 MASS MASS", "1 000", "1,000 MASS", "1 2 3",
+		"1. 5", "1 .5", "0 0", "1 e3 MASS", "1 +1", "7 MASS 7", "1\t000", "1\n000 MASS", "1\u00a0000 MASS", "1 MASS1", "1 1MASS"} {
+		emit("cli-inner", s)
+	}
+	for _, s := range []string{"1", "1.5", "0.00000001", "206438400", ".5", "1.", "000.500", "1 MASS", "1.5 MASS", "1.5MASS", "1  MASS",
+		"1\tMASS", " 1.5 MASS", "\t1.5\n", " 20.5 ", "\r\n1\r\n", "1000 MASS", "206438400.0000000 MASS", "0 MASS", "0MASS"} {
+		emit("cli-numeral", s)
+	}
+	for _, s := range []string{"MASS", " MASS", "MASS ", "", " ", "  ", "1 MASS ", "1MASS ", "1 MASS\n", "1 MASSMASS", "1MASSMASS", "MASSMASS",
+		"1 mass", "1 Mass", "1 MAS", "1 ASS", "1 MASSS", "1 MMASS", "1MASS MASS", "1 M", "1 SS", "1 MASS.", "MASS 1", "MASS1", "1 MA SS",
+		"1.5 MASS MASS", "206438401 MASS", "0.000000001 MASS", "-1 MASS", "+1 MASS", "1e3 MASS", ". MASS", ".MASS", "1..2 MASS", "1 mASS",
+		"1\x00MASS", "1 MASS\x00", "1 \u041cASS", "１ MASS", "1 ＭＡＳＳ"} {
+		emit("cli-suffix", s)
+	}
+	nums := []string{"1", "1.5", "0.25", "12", ".5", "7."}
+	for _, sp := range amtSpaces {
+		for _, n := range nums[:3] {
+			for _, tmpl := range []string{"%s@", "@%s", "%s@%s", "%s%s@", "@%s%s", "@%sMASS", "%s@MASS", "%s@%sMASS", "@MASS%s", "1%s000", "1%s000 MASS", "%sMASS"} {
+				emit("cli-space", strings.ReplaceAll(strings.ReplaceAll(tmpl, "%s", sp), "@", n))
+			}
+		}
+	}
+	for _, sp := range amtNonSpaces {
+		for _, n := range nums[:2] {
+			for _, tmpl := range []string{"%s@", "@%s", "%s@%s", " %s@", "@%s ", "@%sMASS", "%s@MASS", "@ %s MASS", "@MASS%s", "1%s000"} {
+				emit("cli-nonspace", strings.ReplaceAll(strings.ReplaceAll(tmpl, "%s", sp), "@", n))
+			}
+		}
+	}
+	// exhaustive short texts over numeral bytes, white space, the unit's letters and a foreign byte
+	alpha := []string{"1", "0", ".", " ", "\t", "\u00a0", "M", "A", "S", "MASS", "e", "-"}
+	maxLen := g.Scale(4, 5)
+	var rec func(prefix string, n int)
+	rec = func(prefix string, n int) {
+		emit("cli-exh", prefix)
+		if n == 0 {
+			return
+		}
+		for _, a := range alpha {
+			rec(prefix+a, n-1)
+		}
+	}
+	setEvery(32)
+	rec("", maxLen)
+	// random compositions: ws* token (ws+ token)* ws* unit? ws*
+	pieces := []string{"MASS", "MASS", "mass", "MAS", "M", "S", "e3", "-", "+", ",", "_", "x"}
+	n := g.Scale(40000, 400000)
+	for i := 0; i < n; i++ {
+		var b strings.Builder
+		ws := func(max int) {
+			for k := r.Intn(max + 1); k > 0; k-- {
+				if r.Intn(12) == 0 {
+					b.WriteString(amtNonSpaces[r.Intn(len(amtNonSpaces))])
+				} else if r.Intn(3) == 0 {
+					b.WriteString(amtSpaces[r.Intn(len(amtSpaces))])
+				} else {
+					b.WriteString(amtSpaces[r.Intn(6)])
+				}
+			}
+		}
+		num := func() {
+			switch r.Intn(4) {
+			case 0:
+				b.WriteString(strconv.FormatInt(r.Int63n(1000), 10))
+			case 1:
+				b.WriteString(strconv.FormatInt(r.Int63n(300000000), 10) + "." + strconv.FormatInt(r.Int63n(100000000), 10))
+			case 2:
+				b.WriteString(nums[r.Intn(len(nums))])
+			default:
+				b.WriteString(strconv.FormatInt(r.Int63n(1000), 10) + "." + strconv.FormatInt(r.Int63n(1000), 10))
+			}
+		}
+		ws(2)
+		num()
+		switch r.Intn(6) {
+		case 0: // second token after white space
+			ws(2)
+			if r.Intn(2) == 0 {
+				num()
+			} else {
+				b.WriteString(pieces[r.Intn(len(pieces))])
+			}
+		case 1: // glued foreign piece
+			b.WriteString(pieces[r.Intn(len(pieces))])
+		}
+		ws(2)
+		if r.Intn(3) > 0 {
+			b.WriteString("MASS")
+			if r.Intn(6) == 0 {
+				ws(1)
+			}
+			if r.Intn(12) == 0 {
+				b.WriteString("MASS")
+			}
+		}
+		emit("cli-random", b.String())
+	}
+	setEvery(1)
 }
